@@ -102,6 +102,19 @@ def variants(code, rng, spaces=(' ', '\t', ' ', ' ')):
     return sorted(out)
 
 
+def digit_variants(code):
+    """The automaton witnesses unroll each digit loop once; numbers in real codes are longer.  Every maximal digit run
+    is lengthened (a digit in front, a digit behind) and replaced by multi-digit values.  (Candidates; TLC decides.)"""
+    import re
+    out = set()
+    for m in re.finditer(r'[0-9]+', code):
+        run = m.group(0)
+        for alt in ('1' + run, run + '5', run + '0', '12', '105', '2500'):
+            if alt != run:
+                out.add(code[:m.start()] + alt + code[m.end():])
+    return sorted(out)
+
+
 def mutations(code, rng, alphabet):
     """Near-miss candidates: single substitutions, insertions and deletions."""
     out = set()
